@@ -326,7 +326,8 @@ def run(ctx):
     ro = ctx.func("AbstractHelp._render_option")
     names = {n.attr for n in walk_no_nested(ro.node) if isinstance(n, ast.Attribute)}
     cfg = ctx.cfg(ro)
-    alt_use = [n for n in cfg.nodes if n.kind == "stmt" and isinstance(n.ast, ast.AugAssign) and any(isinstance(x, ast.Name) and "alternative" in x.id for x in walk_no_nested(n.ast.value))]
+    alt_use = [n for n in cfg.nodes if n.kind == "stmt" and isinstance(n.ast, (ast.AugAssign, ast.Assign)) and any(isinstance(x, ast.Name) and "alternative" in x.id for x in walk_no_nested(n.ast.value))
+               and not any(isinstance(t, ast.Name) and "alternative" in t.id for t in (n.ast.targets if isinstance(n.ast, ast.Assign) else [n.ast.target]))]
     if {"long_name", "short_name"} <= names and alt_use:
         r.ok("_render_option prints the preferred and the alternative name")
     else:
